@@ -132,6 +132,12 @@ NUMERIC_CALLS = {'rol', 'ror', 'rot', 'Bits', 'len', 'int', 'sum', 'abs', 'ord',
 SEQ_CALLS = {'bytes', 'pack', 'list', 'tuple', 'str', 'bytearray'}
 
 
+# attributes that hold plain integers everywhere in crysp (sizes, counters, payload ints)
+NUM_ATTRS = {'size', 'ival', 'mask', 'blocksize', 'blocklen', 'wsize', 'bitcnt', 'padcnt', 'dim', 'outlen', 'hsize',
+             'Nb', 'Nk', 'Nr', 'Nw', 'No', 'Yl', 'Yf', 'Ym', 'rounds', 'dround', 'keylen', 'chunksize', 'bktlen', 'codesize',
+             'wnd_size', 'chklen', 'data_len', 'count', '__sz', 'bytesize', 'fanout', 'depth', 'ndepth', 'inner'}
+
+
 def kind_of(t):
     """'num' | 'seq' | None (unknown)"""
     tag = t[0]
@@ -159,6 +165,8 @@ def kind_of(t):
         return None
     if tag in ('phi', 'after', 'it') and type(t[-1]) is str:
         return t[-1]
+    if tag == 'attr' and t[2] in NUM_ATTRS:
+        return 'num'
     if tag == 'afterlocal':
         return kind_of(t[2])
     if tag == 'hoist':
@@ -422,14 +430,25 @@ def mk_bool(op, items):
     return (op, tuple(res))
 
 
+def canon_cond(c):
+    """(condition, flipped): 'not x' -> (x, True); a<=b -> (b<a, True)  so that a test and its negation share one form"""
+    if c[0] == 'not':
+        c2, f = canon_cond(c[1])
+        return c2, not f
+    if c[0] == 'cmp' and c[1] == '<=':
+        return ('cmp', '<', c[3], c[2]), True
+    return c, False
+
+
 def mk_ite(c, a, b):
     tv = truth(c)
     if tv is not None:
         return a if tv else b
     if a == b:
         return a
-    if c[0] == 'not':
-        return ('ite', c[1], b, a)
+    c, flipped = canon_cond(c)
+    if flipped:
+        a, b = b, a
     return ('ite', c, a, b)
 
 
@@ -1298,8 +1317,9 @@ class PE:
         return False
 
     def emit_if(self, c, fa, fb, effects):
-        if c[0] == 'not':
-            c, fa, fb = c[1], fb, fa
+        c, flipped = canon_cond(c)
+        if flipped:
+            fa, fb = fb, fa
         effects.append(('if', c, tuple(fa), tuple(fb)))
 
     def assigned_names(self, stmts):
@@ -1393,7 +1413,11 @@ class PE:
         else:
             tn = []
         carried = [v for v in assigned if v in env and v not in tn]
-        carried.sort(key=lambda v: (skey(env[v]), v))
+        first = {}
+        for n_ in ast.walk(ast.Module(body=list(s.body) + ([ast.Expr(value=s.test)] if kind == 'while' else []), type_ignores=[])):
+            if isinstance(n_, ast.Name) and n_.id not in first:
+                first[n_.id] = (getattr(n_, 'lineno', 0), getattr(n_, 'col_offset', 0))
+        carried.sort(key=lambda v: (skey(env[v]), first.get(v, (1 << 30, 0))))
         inits = tuple(env[v] for v in carried)
         env2 = dict(env)
 
